@@ -229,8 +229,9 @@ class Interp(object):
             is_gen = fnode._is_gen = any(isinstance(n, (ast.Yield, ast.YieldFrom)) for n in ast.walk(fnode))
         if _body is not None:
             is_gen = False
-        if is_gen and not getattr(self, "eager_generators", False):
-            raise Unsupported("generator function %s (needs a stub)" % func.fullname)
+        if is_gen and not getattr(self, "eager_generators", False) and not getattr(self, "_forcing_generator", 0):
+            # a generator object: nothing runs until somebody consumes it (sa.lazyiter.force)
+            return [(st, "val", st.alloc(HObj("iterator", {"@gen": (func, tuple(args), tuple(sorted(kwargs.items())), self_val)}, kind="iterator")))]
         frame = {}
         a = fnode.args
         params = [p.arg for p in a.posonlyargs + a.args]
@@ -578,6 +579,9 @@ class Interp(object):
             if isinstance(base, ModuleVal):
                 nm = base.mod.name if isinstance(base.mod, Module) else base.mod
                 st.ghost["@g:%s.%s" % (nm, attr)] = v
+            else:
+                # a class attribute written at run time: process-wide state, seen by everybody who reads it afterwards
+                st.ghost["@c:%s.%s" % (base.name(), attr)] = v
             return [(st, "next", None)]
         raise Unsupported("setattr on %r.%s at %s" % (base, attr, self.loc(node)))
 
@@ -869,6 +873,18 @@ class Interp(object):
                     if k2 != "val":
                         res.append((s2, k2, it2))
                         continue
+                    if isinstance(it2, Ref) and s2.obj(it2).kind == "iterator" and "@gen" in s2.obj(it2).fields:
+                        if any(isinstance(x, (ast.Break, ast.Return)) for b_ in node.body for x in ast.walk(b_)):
+                            if not _lazyiter.pure_generator(s2.obj(it2).fields["@gen"][0]):
+                                raise Unsupported("loop with an early exit over a generator that has effects at %s" % self.loc(node))
+                        for (s3, k3, v3) in _lazyiter.force(self, s2, it2, node):
+                            if k3 != "val":
+                                res.append((s3, k3, v3))
+                            else:
+                                s3.frames[-1][itkey] = it2
+                                held = True
+                                res.extend(self.loop_iterator(s3, node, it2))
+                        continue
                     if isinstance(it2, Ref) and s2.obj(it2).kind == "iterator":
                         io = s2.obj(it2)
                         s2.frames[-1][itkey] = it2          # keeps the iterator object alive while it is only held by the loop
@@ -899,6 +915,8 @@ class Interp(object):
         if abstract:
             if getattr(self, "_in_comprehension", 0):
                 raise _absexpr._AbstractIteration()
+            if getattr(self, "_forcing_generator", 0) and any(isinstance(x, (ast.Yield, ast.YieldFrom)) for b_ in node.body for x in ast.walk(b_)):
+                raise Unsupported("generator yielding inside a loop over an abstract sequence at %s" % self.loc(node))
             res.extend(self.loop_abstract(abstract, node))
         if held:
             for (s, k, v) in res:
@@ -941,6 +959,11 @@ class Interp(object):
             if o.kind in ("list", "set") and o.items is not None:
                 return ("concrete", list(o.items))
             if o.kind == "iterator":
+                if "@gen" in o.fields:
+                    outs = _lazyiter.force(self, st, it, node)
+                    if len(outs) != 1 or outs[0][0] is not st or outs[0][1] != "val":
+                        raise Unsupported("generator consumed where its body forks or raises at %s" % self.loc(node))
+                    o = st.obj(it)
                 if "@op" in o.fields:
                     if _lazyiter.leaves_concrete(st, it):
                         # drained here; only when every step is deterministic (no fork, no exception)
